@@ -9,7 +9,7 @@ from encode import enc, NsTable
 from props.c06 import strip
 
 PROF = profile(tokens=True, math_markup=True, p_math=0.12, p_text=0.65, run_items=(1, 3), inlines=(1, 4), p_rpr=0.5, p_table=0.12,
-               p_textbox=0.0, p_header=0.6, p_double_rel=0.4, p_footnotes=0.5, p_link=0.08, blocks=(1, 4))
+               p_textbox=0.08, p_header=0.6, p_double_rel=0.4, p_footnotes=0.5, p_link=0.08, blocks=(1, 4))
 RULE = ('token documents (text free of line separators); 1-3 replacement pairs whose needles are substrings of one literal text node of the '
         'original (or absent), replacements empty / multi-line (\\n, \\r\\n, trailing newline) / with markup characters / containing the next needle; '
         'the stretch is then cut arbitrarily into runs and text nodes and sprinkled with non-content markup (2-10 rewrites) before '
@@ -65,9 +65,13 @@ def pick_pairs(rng, data):
 
 def expected_views(views, pairs, html):
     def rep(s):
+        # equation text (m:t, rendered between <latex> tags) is not literal text of the paragraph: replace_docx_text rewrites w:t only
+        import re as _re0
+        pieces = _re0.split(r'(<latex>.*?</latex>)', s, flags=_re0.S)
         for old, new in pairs:
             o, n = (ESC(old), ESC(norm_lines(new))) if html else (old, norm_lines(new))
-            s = s.replace(o, n)
+            pieces = [x if x.startswith('<latex>') and x.endswith('</latex>') else x.replace(o, n) for x in pieces]
+        s = ''.join(pieces)
         if html:
             # a run whose whole text is replaced away emits no string at all: its (now empty) formatting tags vanish
             import re as _re
